@@ -1,3 +1,4 @@
+import AdaVerif.Gen.Tables
 import AdaVerif.Lemmas.Ipv4
 import AdaVerif.Lemmas.ParseInv
 /-
@@ -66,5 +67,26 @@ theorem dns_length_boundaries :
     verifyDnsLength (List.replicate 63 0x61) = true ∧ verifyDnsLength (List.replicate 64 0x61) = false ∧
     verifyDnsLength (ofStr "a.b.") = true ∧ verifyDnsLength (ofStr "a..b") = false ∧ verifyDnsLength [] = false ∧
     verifyDnsLength (ofStr ".") = false := by decide +kernel
+
+/-! ### the host code-point tables (regenerated from src/unicode.cpp on every run) -/
+
+/-- `is_forbidden_host_code_point_table` is the Standard's forbidden host code points -/
+theorem forbidden_host_table : ∀ b : UInt8, (tget Gen.forbiddenHostTable b.toNat != 0) = isForbiddenHost b := by
+  apply forall_uint8_of_fin; decide +kernel
+
+/-- `is_forbidden_domain_code_point_table` is the Standard's forbidden domain code points on ASCII; every
+    non-ASCII byte is marked too (the table is applied to the result of domain-to-ASCII, where a
+    non-ASCII byte cannot legitimately occur) -/
+theorem forbidden_domain_table : ∀ b : UInt8,
+    (tget Gen.forbiddenDomainTable b.toNat != 0) = (isForbiddenDomain b || decide (b.toNat ≥ 128)) := by
+  apply forall_uint8_of_fin; decide +kernel
+
+/-- the combined table used by the host fast path: forbidden domain code point, or an upper-case
+    letter (which needs lower-casing) -/
+theorem forbidden_domain_or_upper_table : ∀ b : UInt8,
+    (tget Gen.forbiddenDomainOrUpperTable b.toNat != 0) = (isForbiddenDomain b || decide (b.toNat ≥ 128) || isAsciiUpper b) ∧
+    ((tget Gen.forbiddenDomainOrUpperTable b.toNat == 2) = isAsciiUpper b) ∧
+    tget Gen.forbiddenDomainOrUpperTable b.toNat ≤ 2 := by
+  apply forall_uint8_of_fin; decide +kernel
 
 end AdaVerif.Props.C10
